@@ -134,6 +134,17 @@ CHECKS = {
             "over trees.",
             "Trusts vf/xref.py; two-parameter conditions are covered by sampling, not by the interval argument.",
             "DESIGN.md 3/C05"),
+    "C14": ("exploration",
+            "Hypothesis-generated length-dependent documents and packets shorter than / equal to / longer than what "
+            "the definition consumes (incl. adversarial 'rewinding' synthesis for negative lengths), against the "
+            "reference cleanliness predicate and the recorded length-mismatch warning",
+            "Each generated packet is parsed alone with parse_bad_pkts on and off; clean packets must be yielded "
+            "without the length-mismatch warning with the cursor at the reference sum of widths, decodable but "
+            "mismatched packets must be warned about and withheld when bad packets are excluded, and packets with a "
+            "field beyond the end or a negative computed length must be warned about, withheld or fail - never "
+            "yielded as clean. Sampled, with floors on every class.",
+            "Trusts vf/xref.py for the consumed-bit count; only the 'Number of bits parsed' warning is interpreted.",
+            "DESIGN.md 3/C14"),
 }
 
 PENDING_REASON = "check not built yet in this round (planned, see DESIGN.md section 3); nothing is claimed for it"
